@@ -23,6 +23,7 @@ import (
 	"os"
 	"path/filepath"
 	"regexp"
+	"runtime"
 	"sort"
 	"strconv"
 	"strings"
@@ -361,6 +362,7 @@ type tkStats struct {
 	grants, grantOk, drops, dropsNontrivial, sharedOps, ops int
 	served, servedWriteOk, servedNotified, servedSubOk      int
 	pwrites, pwritesPending, verdicts, verdictsTaken        int
+	injectedDrops, injectedFired, insideWindow              int
 }
 
 // runTkHistory executes ops on a fresh world, compares with the driver (nil: monitor only), judges the SPEC.
@@ -501,6 +503,42 @@ func runTkHistory(r *h.Report, d *h.Driver, ev *tkEvents, base int, facts string
 				known = regexpEntityKnown(w, k, ent)
 			}
 			ev.take()
+			// `dropent k ent @<kind>:<idx>`: the connection of the SAME peer is removed while its entity-removed notification is
+			// being processed — RemoveRemoteDeviceConnection(k) is started by a core-level event handler at the idx-th removal
+			// event of that kind (entity-, sub-, bind-) the notification publishes. Judged after BOTH have returned, as the
+			// teardown of the device (every interleaving must end where the sequential teardown ends: Props.C10Keys
+			// c10k_entity_pass_device_teardown_commute).
+			both := f[0] == "dropent" && len(f) > 3 && strings.HasPrefix(f[3], "@")
+			var tdDone chan struct{}
+			if both {
+				kindIdx := strings.SplitN(f[3][1:], ":", 2)
+				idx := 0
+				if len(kindIdx) == 2 {
+					idx, _ = strconv.Atoi(kindIdx[1])
+				}
+				tdDone = make(chan struct{})
+				tkCore.arm(kindIdx[0], idx, func() {
+					go func() {
+						w.l.RemoveRemoteDeviceConnection(tkSki(k))
+						close(tdDone)
+					}()
+					// Publish is serialised (the bus holds its handling lock while this handler runs): the teardown runs until
+					// its first own Publish and waits there. Condition-based, bounded wait: the device has left the map of
+					// connected devices (the teardown had nothing to publish before that point — the window the notification's
+					// remaining clean-up must cope with), or the bound ran out (the teardown is waiting at a Publish, or — on a
+					// loaded machine — has not been scheduled: either way not a failure, the verdict is taken after both returned)
+					for t0 := time.Now(); time.Since(t0) < 20*time.Millisecond; {
+						if w.l.RemoteDeviceForSki(tkSki(k)) == nil {
+							st.insideWindow++
+							break
+						}
+						runtime.Gosched()
+						if time.Since(t0) > 2*time.Millisecond {
+							time.Sleep(200 * time.Microsecond)
+						}
+					}
+				})
+			}
 			if f[0] == "drop" {
 				w.l.RemoveRemoteDeviceConnection(tkSki(k))
 				if w.alive[k] && w.wr[k] != nil {
@@ -517,10 +555,34 @@ func runTkHistory(r *h.Report, d *h.Driver, ev *tkEvents, base int, facts string
 				w.inject(k, model.DatagramType{Header: model.HeaderType{AddressSource: h.FA(tkDev(w.dev[k]), []uint{0}, 0), AddressDestination: h.FA("HEMS", []uint{0}, 0),
 					MsgCounter: util.Ptr(model.MsgCounterType(w.ctr[k])), CmdClassifier: &nc}, Payload: model.PayloadType{Cmd: []model.CmdType{cmd}}})
 			}
+			if both {
+				st.injectedDrops++
+				if _, fired := tkCore.disarm(); !fired {
+					// the event point does not exist in this run (nothing of that kind was published): the teardown follows
+					w.l.RemoveRemoteDeviceConnection(tkSki(k))
+					close(tdDone)
+				} else {
+					st.injectedFired++
+				}
+				select {
+				case <-tdDone:
+				case <-time.After(5 * time.Second):
+					r.SpecFail("C10/keys-teardown-blocked-inside-entity-removal", done, fmt.Sprintf("RemoveRemoteDeviceConnection(%d), started at %s of its own entity-removed notification, had not returned 5 s after the notification", k, f[3]))
+				}
+				if w.wr[k] != nil {
+					w.old = append(w.old, tkOldWriter{k, w.wr[k]})
+					delete(w.wr, k)
+				}
+				w.alive[k] = false
+			}
 			h.Settle(w.base)
 			evs := ev.take()
 			impl = tkSet(evs)
-			mdl = ask(op)
+			if both {
+				mdl = ask(fmt.Sprintf("dropentdrop %d %s", k, ent))
+			} else {
+				mdl = ask(op)
+			}
 			if shared {
 				// outside the assumption (two connections announce one address) a removal event describes the clean-up's
 				// TARGET (its connection, its feature object), not the entry that went: compared by kind and local feature only
@@ -539,7 +601,7 @@ func runTkHistory(r *h.Report, d *h.Driver, ev *tkEvents, base int, facts string
 			st.drops++
 			// SPEC view of the pending approvals: those of the removed device / of the removed entity are gone
 			for _, a := range w.appr {
-				if a.live && a.k == k && wasAlive && (f[0] == "drop" || (known && ent != "0" && a.ent == ent)) {
+				if a.live && a.k == k && wasAlive && (f[0] == "drop" || both || (known && ent != "0" && a.ent == ent)) {
 					a.live, a.why = false, op
 				}
 			}
@@ -551,9 +613,12 @@ func runTkHistory(r *h.Report, d *h.Driver, ev *tkEvents, base int, facts string
 				var refersE func(string) bool
 				var refersB func(string) bool
 				var expEv []string
-				if f[0] == "drop" {
+				if f[0] == "drop" || both {
 					refersE = func(x string) bool { return wasAlive && strings.Contains(x, conn) }
 					refersB = func(x string) bool { return wasAlive && strings.HasPrefix(x, devp) }
+					if both && known && ent != "0" {
+						expEv = append(expEv, fmt.Sprintf("E%d:%s", k, ent))
+					}
 				} else {
 					effective := known && ent != "0"
 					refersE = func(x string) bool {
@@ -595,7 +660,7 @@ func runTkHistory(r *h.Report, d *h.Driver, ev *tkEvents, base int, facts string
 				for _, x := range goneB {
 					expEv = append(expEv, "B"+x)
 				}
-				if f[0] == "drop" {
+				if f[0] == "drop" || both {
 					expEv = append(expEv, fmt.Sprintf("D%d", k))
 				}
 				if tkSet(evs) != tkSet(expEv) {
@@ -603,7 +668,7 @@ func runTkHistory(r *h.Report, d *h.Driver, ev *tkEvents, base int, facts string
 				}
 				postRes := w.resolve()
 				for i, line := range postRes {
-					mine := f[0] == "drop" && wasAlive && (strings.HasPrefix(line, fmt.Sprintf("ski %d=", k)) || strings.HasPrefix(line, fmt.Sprintf("addr %d=", w.dev[k])))
+					mine := (f[0] == "drop" || both) && wasAlive && (strings.HasPrefix(line, fmt.Sprintf("ski %d=", k)) || strings.HasPrefix(line, fmt.Sprintf("addr %d=", w.dev[k])))
 					if mine && !strings.HasSuffix(line, "=-") {
 						r.SpecFail("C10/keys-removed-device-still-resolves", done, fmt.Sprintf("after %s: %s", op, line))
 					}
@@ -611,7 +676,7 @@ func runTkHistory(r *h.Report, d *h.Driver, ev *tkEvents, base int, facts string
 						r.SpecFail("C10/keys-other-device-resolution-changed", done, fmt.Sprintf("after %s: %s, before: %s", op, line, preRes[i]))
 					}
 				}
-				if f[0] == "dropent" {
+				if f[0] == "dropent" && !both {
 					if tkSet(postC) == tkSet(preC) && known && ent != "0" {
 						r.SpecFail("C10/keys-removed-entity-still-known", done, fmt.Sprintf("after %s the connections are %s", op, tkSet(postC)))
 					}
@@ -886,7 +951,8 @@ func (w *tkWorld) outputs() (all []string, toOld []string) {
 	return
 }
 
-// serveOthers: after a teardown about connection k, every other connected peer q sends a read, a write and a
+// serveOthers: after a teardown about connection k, every other connected peer q (after an entity removal also k itself,
+// from its remaining entities) sends a read, a write and a
 // subscription request (as real datagrams through HandleSpineMesssage). Compared with the composed model (drv_tdk `dg`
 // / `call`); SPEC (model-free, distinct device addresses): the read is answered with one reply carrying the value of the
 // last accepted write, the write is accepted iff the OBSERVED bindings hold (server feature <- q's client feature) and
@@ -898,7 +964,9 @@ func (w *tkWorld) serveOthers(r *h.Report, drv func() *h.Driver, mismatch func([
 	typ := dispTypeID[model.FeatureTypeTypeLoadControl]
 	shared := false
 	for q := 1; q <= tkNConn; q++ {
-		if q == k || !w.alive[q] {
+		// every OTHER connected peer — and, after an entity removal, the SAME peer from the entities it still has
+		// ("all and only what refers to that entity": Props.C10Serve.c10s_entity_same_device_served)
+		if !w.alive[q] {
 			continue
 		}
 		var ents []string
@@ -1142,7 +1210,15 @@ func genTkHistory(rng regRng, n int, shared bool) []string {
 			}
 		case x < 91:
 			e := []string{"1", "1.1", "2", "0", "3"}[rng.Intn(5)]
-			ops = append(ops, fmt.Sprintf("dropent %d %s", pick(), e))
+			k := pick()
+			if rng.Intn(3) == 0 {
+				// the same peer's connection is removed WHILE this notification is processed, at one of its removal events
+				at := []string{"entity-:0", "entity-:0", "sub-:0", "sub-:1", "bind-:0"}[rng.Intn(5)]
+				ops = append(ops, fmt.Sprintf("dropent %d %s @%s", k, e, at))
+				delete(alive, k)
+			} else {
+				ops = append(ops, fmt.Sprintf("dropent %d %s", k, e))
+			}
 			if rng.Intn(2) == 0 {
 				ops = append(ops, "sweep")
 			}
@@ -1184,7 +1260,14 @@ var tkCorpus = [][]string{
 	// the same SKI reusing the counter (the verdict for the old connection's message must be ignored, the new one taken)
 	{"connect 1 101", "connect 2 102", "bind 1 1 1 3 1", "bind 2 1 1 4 1", "pwrite 1", "pwrite 2", "pwrite 1", "drop 1", "sweep", "connect 1 101", "bind 1 1 1 3 1", "pwrite 1", "pwrite 2", "verdict 0 ok", "verdict 3 ok", "dropent 2 1", "sweep"},
 	{"connect 1 101", "connect 2 102", "bind 1 2 1 3 1", "bind 2 1 1 4 1", "pwrite 1", "pwrite 2", "dropent 1 1", "verdict 0 ok", "dropent 1 2", "verdict 0 deny", "verdict 1 deny", "pwrite 1"},
+	// the connection is removed while its own entity-removed notification is processed (at the entity event, at a registry event)
+	{"connect 1 101", "connect 2 102", "sub 1 1 1 1 1", "bind 1 1 1 2 1", "sub 1 2 1 1 1", "sub 2 1 1 1 1", "csub 101 1", "csub 101 2", "dropent 1 1 @entity-:0", "bind 2 1 1 2 1", "sub 2 1 2 1 1"},
+	{"connect 1 101", "connect 2 102", "sub 1 1 1 1 1", "sub 1 1 2 3 1", "bind 1 1 1 2 1", "bind 1 2 1 3 1", "pwrite 1", "sub 2 1 1 1 1", "dropent 1 1 @sub-:1", "sweep", "connect 1 101", "sub 1 1 1 1 1"},
+	{"connect 1 101", "connect 2 102", "bind 1 1 1 2 1", "sub 1 1.1 1 1 1", "dropent 1 1 @bind-:0", "dropent 2 3 @entity-:0", "bind 2 1 1 2 1"},
 }
+
+// tkCore: core-level event handler that starts an injected teardown at a chosen removal event (see `dropent … @kind:idx`)
+var tkCore = &regCoreHandler{}
 
 func TestTeardownKeys(t *testing.T) {
 	r := h.NewReport("teardown-keys", "histories over up to 4 connections with identical entity / feature numbering (distinct device addresses, and — compared with the model only — two connections announcing one address): granted subscriptions and bindings, client-side subscriptions / bindings of a local client feature, RemoveRemoteDeviceConnection (also of unknown / already removed connections), entity-removed notifications ([0], unknown, nested), re-connections (also under a new address); after every op the registries with (connection, device address, entity, feature) of each entry, the bookkeeping, the connected devices with their entities, the removal events with their contents and RemoteDeviceForSki / RemoteDeviceForAddress for every connection and address are compared with Spine.TdK built from the comparisons the translator derived from this tree; model-free SPEC monitor for the all-and-only, event and resolution clauses; non-trivial = a history (distinct by op text) that agreed to its end")
@@ -1192,6 +1275,8 @@ func TestTeardownKeys(t *testing.T) {
 	ev := &tkEvents{}
 	_ = spine.Events.Subscribe(ev)
 	defer func() { _ = spine.Events.Unsubscribe(ev) }()
+	_ = spine.VerifSubscribeCore(tkCore)
+	defer func() { _ = spine.VerifUnsubscribeCore(tkCore) }()
 	d := h.StartDriver("drv_tdk")
 	defer d.Close()
 	base := h.Baseline()
@@ -1229,6 +1314,8 @@ func TestTeardownKeys(t *testing.T) {
 		r.Floor("requests of other peers after a teardown: writes the observed bindings authorise (accepted)", st.servedWriteOk, st.served, 0.02)
 		r.Floor("writes to a feature with approval callback that became pending", st.pwritesPending, st.pwrites, 0.10)
 		r.Floor("verdicts taken", st.verdictsTaken, st.verdicts, 0.10)
+		r.Floor("connection removals injected into the peer's own entity-removed notification: event point reached", st.injectedFired, st.injectedDrops, 0.25)
+		r.Floor("… of those, the device had left the map of connected devices inside the event window", st.insideWindow, st.injectedFired, 0.03)
 		r.Floor("requests of other peers after a teardown: subscription requests granted", st.servedSubOk, st.served, 0.05)
 	}
 	rerun := func(q *h.Report, ops []string) { runTkHistory(q, d, ev, base, facts, ops, &tkStats{}) }
